@@ -71,6 +71,7 @@ func (s *Sim) maybeForkTwin(n *Node) {
 		pending: map[agreement.TimeoutType]*pendingTimer{}}
 	n.tmu.Lock()
 	t.now = n.now
+	t.asmRound, t.asmCount = n.asmRound, n.asmCount
 	n.tmu.Unlock()
 	t.led = n.led.clone(s, t)
 	s.twinSeq++
